@@ -115,6 +115,26 @@ def obligation(cls, method):
     return run
 
 
+def stale_state_obligation(cls):
+    """Each Jacobian method answers for the *current* contents of the pose: call, overwrite the pose in place, call again."""
+    def fn(it):
+        a = sym_pose(cls, "a", unit=True)
+        b = sym_pose(cls, "b", unit=True)
+        pt = sym_pose(POINT_OF[cls], "pt")
+        args = {"oplus": [b], "ominus": [b], "oplus_point": [pt], "inverse": [], "boxplus": []}
+        for m, (op, wrt, compact) in METHODS.items():
+            it.call_method(a, m, args[op])
+        a2 = sym_pose(cls, "a2", unit=True)
+        a.data[:] = list(a2.data)
+        for m, (op, wrt, compact) in METHODS.items():
+            got = it.call_method(a, m, args[op])
+            exp = it.call_method(a2, m, args[op])
+            require_same(got, exp, "%s.%s: after the pose was modified in place the method still answers for the old contents "
+                                   "(a cached result)" % (cls, m))
+        return dict(mode="history-independence", methods=len(METHODS))
+    return lambda pkg: run_obligation(pkg, fn)
+
+
 SHAPE_RE = re.compile(r"shape:\s*``\s*(\d+)\s*x\s*(\d+)\s*``")
 
 
@@ -144,6 +164,11 @@ def run(run_, pkg, tier):
             if run_.wants(key):
                 fn = pkg.method(cls, m)
                 tasks.append((key, "C10-derivative", obligation(cls, m), "%s:%d" % (fn._gs_module, fn.lineno)))
+    for cls in POSES:
+        key = "%s/history-independent" % cls
+        if run_.wants(key):
+            fn = pkg.method(cls, "jacobian_boxplus")
+            tasks.append((key, "C10-history-independence", stale_state_obligation(cls), "%s:%d" % (fn._gs_module, fn.lineno)))
     run_.floor("pose Jacobian methods", found, 48)
     results = run_tasks(pkg, tasks)
     record(run_, tasks, results)
